@@ -38,11 +38,33 @@ def SerGs (V : Nat → ValueS) (vis : List Nat) : List GraphT → Prop
   | g :: gs => SerG V vis g ∧ SerGs V vis gs
 end
 
+mutual
+/-- the information conditions of the round trip: a non-input initializer that is not a graph output
+    has a type and a shape (else it receives them from its tensor); an empty-named output carries no
+    type and no documentation -/
+def InfoG (V : Nat → ValueS) : GraphT → Prop
+  | .mk _ ins inits nodes outs =>
+    (∀ kv ∈ inits, kv.2 ∉ ins → kv.2 ∉ outs → (V kv.2).info.ty ≠ none ∧ (V kv.2).info.sh ≠ none) ∧
+    InfoNs V nodes
+def InfoNs (V : Nat → ValueS) : List NodeT → Prop
+  | [] => True
+  | n :: ns => InfoN V n ∧ InfoNs V ns
+def InfoN (V : Nat → ValueS) : NodeT → Prop
+  | .mk _ _ _ outs subs =>
+    (∀ v ∈ stripTrailing V outs, ¬ nameTruthy (V v).name = true → (V v).info.ty = none ∧ (V v).info.doc = none) ∧
+    InfoGs V subs
+def InfoGs (V : Nat → ValueS) : List GraphT → Prop
+  | [] => True
+  | g :: gs => InfoG V g ∧ InfoGs V gs
+end
+
 /-- **Serializable**: every value is defined once; names needed for references are non-empty and
     unique per scope chain; every referenced value is defined in an enclosing scope; graph outputs are
-    defined in their graph; initializers are keyed by name and carry a tensor. -/
+    defined in their graph; initializers are keyed by name and carry a tensor; an initializer that is
+    neither a graph input nor a graph output has a type and a shape; empty-named outputs carry no
+    type or documentation. -/
 def Serializable (w : World) : Prop :=
-  (allDefsG w.st.vals w.root).Nodup ∧ SerG w.st.vals [] w.root
+  (allDefsG w.st.vals w.root).Nodup ∧ SerG w.st.vals [] w.root ∧ InfoG w.st.vals w.root
 
 /-! ### isomorphism -/
 
@@ -69,11 +91,17 @@ end
 /-- **Iso**: `D` is `w` up to the renaming `σ` of value ids: same tree (node order, connectivity,
     optional inputs, initializer keys, graph inputs and outputs), `σ` injective on the defined values
     (a value shared between scopes or captured from an outer scope stays ONE value, distinct values
-    stay distinct), and every value keeps its name. -/
+    stay distinct), every value keeps its name, its serializable type / shape / documentation, and
+    every initializer its tensor payload. -/
 structure Iso (w D : World) (σ : Nat → Nat) : Prop where
   tree : TreeIsoG w.st.vals σ w.root D.root
   inj : ∀ a ∈ allDefsG w.st.vals w.root, ∀ b ∈ allDefsG w.st.vals w.root, σ a = σ b → a = b
   names : ∀ v ∈ allDefsG w.st.vals w.root, (D.st.vals (σ v)).name = (w.st.vals v).name
+  /-- type, shape and documentation: what `serialize_value_into` can write of them (`Info.emit`) -/
+  infos : ∀ v ∈ allDefsG w.st.vals w.root, (D.st.vals (σ v)).info = (w.st.vals v).info.emit
+  /-- every initializer has a tensor named after it with the payload of the source tensor -/
+  consts : ∀ kv ∈ allInitsG w.root, ∀ t, (w.st.vals kv.2).const = some t →
+    ∃ t', (D.st.vals (σ kv.2)).const = some t' ∧ (D.st.tens t').name = some kv.1 ∧ D.st.tdata t' = w.st.tdata t
 
 /-! ### the executable predicate is sound -/
 
@@ -143,9 +171,46 @@ theorem serGsB_sound (V : Nat → ValueS) :
     exact ⟨serGB_sound V g vis h.1, serGsB_sound V gs vis h.2⟩
 end
 
+mutual
+theorem infoGB_sound (V : Nat → ValueS) : ∀ (g : GraphT), infoGB V g = true → InfoG V g
+  | .mk _ ins inits nodes outs, h => by
+    simp only [infoGB, Bool.and_eq_true, List.all_eq_true] at h
+    simp only [InfoG]
+    refine ⟨fun kv hkv hni hno => ?_, infoNsB_sound V nodes h.2⟩
+    have := h.1 kv hkv
+    simp only [Bool.or_eq_true, Bool.and_eq_true, List.contains_eq_mem, decide_eq_true_eq,
+      Option.isSome_iff_ne_none] at this
+    rcases this with (h1 | h1) | h1
+    · exact absurd h1 hni
+    · exact absurd h1 hno
+    · exact h1
+theorem infoNsB_sound (V : Nat → ValueS) : ∀ (ns : List NodeT), infoNsB V ns = true → InfoNs V ns
+  | [], _ => by simp [InfoNs]
+  | n :: ns, h => by
+    simp only [infoNsB, Bool.and_eq_true] at h
+    simp only [InfoNs]
+    exact ⟨infoNB_sound V n h.1, infoNsB_sound V ns h.2⟩
+theorem infoNB_sound (V : Nat → ValueS) : ∀ (n : NodeT), infoNB V n = true → InfoN V n
+  | .mk _ _ _ outs subs, h => by
+    simp only [infoNB, Bool.and_eq_true, List.all_eq_true] at h
+    simp only [InfoN]
+    refine ⟨fun v hv hf => ?_, infoGsB_sound V subs h.2⟩
+    have := h.1 v hv
+    simp only [Bool.or_eq_true, Bool.and_eq_true, Option.isNone_iff_eq_none] at this
+    rcases this with h1 | h1
+    · exact absurd h1 hf
+    · exact h1
+theorem infoGsB_sound (V : Nat → ValueS) : ∀ (gs : List GraphT), infoGsB V gs = true → InfoGs V gs
+  | [], _ => by simp [InfoGs]
+  | g :: gs, h => by
+    simp only [infoGsB, Bool.and_eq_true] at h
+    simp only [InfoGs]
+    exact ⟨infoGB_sound V g h.1, infoGsB_sound V gs h.2⟩
+end
+
 /-- what the driver evaluates implies the hypothesis of `C03_roundtrip` -/
 theorem serializableB_sound (w : World) (h : serializableB w = true) : Serializable w := by
   simp only [serializableB, Bool.and_eq_true] at h
-  exact ⟨(nodupB_iff _).mp h.1, serGB_sound _ _ _ h.2⟩
+  exact ⟨(nodupB_iff _).mp h.1.1, serGB_sound _ _ _ h.1.2, infoGB_sound _ _ h.2⟩
 
 end IrVerif.Scope
